@@ -418,7 +418,9 @@ func (c *Controller) flushEstablishedLink(el *establishedLink, hasNextLink bool)
 		if lk.peerID != peerID {
 			return false
 		}
-		if ld.lnk.GetValue() != el.lnk {
+		// a dialer for the peer that has not recorded a link yet may be about to
+		// record this (now lost) link: restart it as well.
+		if dlnk := ld.lnk.GetValue(); dlnk != nil && dlnk != el.lnk {
 			return false
 		}
 
